@@ -42,6 +42,8 @@ class Report:
         self.explanation = ''
         self.extra_cov = {}
         self._nontrivial = set()
+        self.arbiter = None       # (rule, site) -> note | None
+        self.floor_arbiter = None  # what -> note | None
 
     # -- recording ------------------------------------------------------
     def rule(self, rid, text):
@@ -51,6 +53,11 @@ class Report:
            nontrivial=True, path=None):
         """Record one obligation.  `site` is the stable key of the instance
         (module:qualname[/what]) -- never a line number."""
+        if not ok and self.arbiter is not None:
+            note = self.arbiter(rule, site)
+            if note:
+                ok = True
+                detail = note
         rec = {'rule': rule, 'site': site, 'verdict': 'ok' if ok else 'FAIL'}
         if detail:
             rec['detail'] = detail
@@ -71,6 +78,12 @@ class Report:
     def floor(self, what, count, minimum):
         self.floors.append({'what': what, 'count': count,
                             'minimum': minimum})
+        if count < minimum and self.floor_arbiter is not None:
+            note = self.floor_arbiter(what)
+            if note:
+                self.notes.append('floor %s not met (%d < %d): %s' % (
+                    what, count, minimum, note))
+                return
         if count < minimum:
             self.errors.append(
                 'floor not met: %s = %d < %d (a rule matching too few sites '
